@@ -282,7 +282,8 @@ func (s *state) walk(node parse.Node) error {
 		}
 		if CoerceBool(v) {
 			return s.walk(node.Body)
-		} else {
+		} else if node.Else != nil {
+			// the inline condition of a for loop has no else branch
 			return s.walk(node.Else)
 		}
 	case *parse.IncludeNode:
